@@ -227,6 +227,12 @@ def enc_ok_expr(cbc, variant, efn, iv, m, out, b):
     return 'forall |ps: Seq<Blk>, t: Seq<u8>| #[trigger] is_chunking(%s, %s, ps, t) ==> %s == ecb_cs_enc(%d, %s, %s, ps, t)' % (m, b, out, variant, efn, b)
 
 
+def dec_ok_expr(cbc, variant, dfn, iv, m, out, b):
+    if cbc:
+        return 'forall |ps: Seq<Blk>, t: Seq<u8>| #[trigger] is_chunking(%s, %s, ps, t) ==> %s == cbc_cs_dec(%d, %s, %s, ps, t)' % (m, b, out, variant, dfn, iv)
+    return 'forall |ps: Seq<Blk>, t: Seq<u8>| #[trigger] is_chunking(%s, %s, ps, t) ==> %s == ecb_cs_dec(%d, %s, ps, t)' % (m, b, out, variant, dfn)
+
+
 CLOSURE_PRE = '''
         proof { BS::block_size_bounds(); }
         broadcast use Array::axiom_len;
@@ -242,6 +248,7 @@ CBC_ENC_PRE = CLOSURE_PRE + '''
         let ghost m0 = buf0.in_val();
 '''
 AFTER_CHUNKS = '''
+        let ghost ab = blocks;
         let ghost ps0 = aviews(blocks.in_val());
         let ghost t0 = tail.in_val();
         let ghost nb = ps0.len() as int;
@@ -496,6 +503,116 @@ def ecb_enc_call(variant):
                       '3.1.5': ECB_BLOCK_HINT, '3.1.6': ECB_CLAST_HINT, 'end': ECB3_ENC_END})
 
 
+# ------------------------------------------------------------------ decrypt closures
+DEC_PRE = CLOSURE_PRE + '''
+        let ghost iv0 = self.iv@;
+        let ghost df = cipher.dec_fn();
+        let ghost m0 = buf0.in_val();
+        let ghost al = buf0.aliased@;
+'''
+DEC_UNIQ = '''
+            assert forall |ps: Seq<Blk>, t: Seq<u8>| #[trigger] is_chunking(m0, bl, ps, t) implies %s == %s by {
+                chunking_unique(m0, bl, ps, t, ps0, t0);
+            }
+'''
+# CBC-CS1 / CBC-CS2: same skeleton; `cs1` selects which of the two middle blocks is deciphered first
+def cbc12_dec_call(variant):
+    cs1 = variant == 1
+    after_cut = '''
+        let ghost hb = blocks;               // head blocks handed to cbc_dec
+        let ghost nh = hb.out_cur().len() as int;
+        proof {
+            if dd > 0 { assert(aviews(hb.in_val()) =~= ps0.take(nb - 1)); assert(nh == nb - 1); }
+            else { assert(aviews(hb.in_val()) =~= ps0); assert(nh == nb); }
+        }
+'''
+    after_dec = '''
+        let ghost head = if dd > 0 { ps0.take(nb - 1) } else { ps0 };
+        let ghost hp = cbc_dec_chain(df, iv0, head);
+        let ghost prev = if head.len() == 0 { iv0 } else { head[head.len() - 1] };
+        proof {
+            cbc_p_is_run(df, iv0, head);
+            run_len(cbc_dec_step(df), seq![iv0], head);
+            assert(aviews(hb.out_fut()) == hp);
+            assert(seq![iv@][0] == seq![prev][0]);
+        }
+'''
+    early = '''
+            proof {
+                assert(tail.out_cur() =~= Seq::<u8>::empty());
+                assert(buf.out_cur() =~= flatg(hp));
+                assert(buf.out_cur() == cbc_cs_dec(%d, df, iv0, ps0, t0));
+''' % variant + DEC_UNIQ % ('buf.out_cur()', 'cbc_cs_dec(%d, df, iv0, ps, t)' % variant) + '''
+            }
+'''
+    before_split = '''
+        let ghost mid_g = (nb - 1) * bl;
+        let ghost before = buf.out_cur();
+        proof {
+            assert(before == flatg(aviews(ab.out_fut())) + tail.out_cur());
+            assert(ab.out_fut().len() == nb);
+            assert(ab.out_fut() =~= hb.out_fut().push(ab.out_fut()[nb - 1]));
+            assert(aviews(ab.out_fut()) =~= hp.push(ab.out_fut()[nb - 1]@));
+            flatg_push(hp, ab.out_fut()[nb - 1]@);
+            assert((nb - 1) * bl + bl == nb * bl) by (nonlinear_arith);
+            flatg_len(hp, bl);
+            flatg_len(ps0, bl);
+            flatg_len(ps0.take(nb - 1), bl);
+            assert(ps0 =~= ps0.take(nb - 1).push(ps0[nb - 1]));
+            flatg_push(ps0.take(nb - 1), ps0[nb - 1]);
+            // the region behind the head blocks still holds the ciphertext, in place and buffer to buffer
+            assert(before.take(mid_g) =~= flatg(hp));
+            assert(buf.in_val().skip(mid_g) =~= ps0[nb - 1] + t0);
+        }
+'''
+    x = 'ps0[nb - 1] + t0'
+    if cs1:
+        c_star, c_n = '(%s).take(dd)' % x, '(%s).skip(dd)' % x
+    else:
+        c_star, c_n = 't0', 'ps0[nb - 1]'
+    end = '''
+        proof {
+            let tailp = cbc_cs_dec_tail(df, prev, c_star, c_n);
+            assert(rem.out_cur() =~= tailp);
+            assert(buf0.out_fut() =~= flatg(hp) + tailp);
+            assert(cs_dec_pieces(%(v)d, ps0, t0) == (head, c_star, c_n));
+            assert(buf0.out_fut() == cbc_cs_dec(%(v)d, df, iv0, ps0, t0));
+''' % {'c_star': c_star, 'c_n': c_n, 'v': variant} + DEC_UNIQ % ('buf0.out_fut()', 'cbc_cs_dec(%d, df, iv0, ps, t)' % variant) + '''
+        }
+'''
+    steps = {
+        '10': '''
+        let ghost xx = ps0[nb - 1] + t0;
+        let ghost c_star = %(c_star)s;
+        let ghost c_n = %(c_n)s;
+        let ghost z = df(c_n);
+        let ghost c_pen = c_star + z.skip(dd);
+        assert(rem.in_val() =~= xx);
+        assert(n == dd);
+''' % {'c_star': c_star, 'c_n': c_n}}
+    if cs1:
+        steps.update({
+            '11': 'assert(block1@ =~= ps0[nb - 1]);',
+            '12': 'assert(block2@ =~= c_n);',
+            '13': 'assert(block2@ == z);',
+            '14': 'assert(block1@ =~= c_pen);',
+            '15': 'assert(block2@ == xor_seq(z, c_pen));',
+            '17': 'assert(block1@ == xor_seq(df(c_pen), prev));',
+        })
+    else:
+        steps.update({
+            '11': 'assert(block1@ =~= c_n);',
+            '12': 'assert(block1@ == z);',
+            '13': ZERO_HINT,
+            '15': 'assert(block2@.take(dd) =~= c_star);',
+            '16': 'assert(block2@ =~= c_pen);',
+            '17': 'assert(block1@ == xor_seq(z, c_pen));',
+            '19': 'assert(block2@ == xor_seq(df(c_pen), prev));',
+        })
+    return FnC(props=PG, inherits=True, attrs=['#[verifier::loop_isolation(false)]'],
+               stmts=dict({'0': DEC_PRE, '2': AFTER_CHUNKS, '3': after_cut, '4': after_dec, '4.0.0': early, '7': before_split, 'end': end}, **steps))
+
+
 def variant_mod(fname, obj, cbc, variant, enc_call=None, dec_call=None):
     modname = 'cts_' + fname
     b = 'C::BlockSize::USIZE as nat'
@@ -508,8 +625,10 @@ def variant_mod(fname, obj, cbc, variant, enc_call=None, dec_call=None):
 ''' % (b, enc_ok_expr(cbc, variant, 'self.cipher.enc_fn()', 'self.iv@', 'm', 'out', b))
     dec_members = '''
     open spec fn min_len(&self) -> nat { %s }
-    open spec fn dec_ok(&self, m: Seq<u8>, out: Seq<u8>) -> bool { out.len() == m.len() }
-''' % b
+    open spec fn dec_ok(&self, m: Seq<u8>, out: Seq<u8>) -> bool {
+        out.len() == m.len() && (%s)
+    }
+''' % (b, dec_ok_expr(cbc, variant, 'self.cipher.dec_fn()', 'self.iv@', 'm', 'out', b) if dec_call else 'true')
     clo_enc_members = '''
     open spec fn pre_c(&self) -> bool { self.buf.wf() && self.buf.out_cur().len() >= BS::USIZE }
     #[verifier::prophetic]
@@ -524,9 +643,10 @@ def variant_mod(fname, obj, cbc, variant, enc_call=None, dec_call=None):
     open spec fn pre_c(&self) -> bool { self.buf.wf() && self.buf.out_cur().len() >= BS::USIZE }
     #[verifier::prophetic]
     open spec fn post_c(&self, dec: spec_fn(Blk) -> Blk) -> bool {
-        self.buf.out_fut().len() == self.buf.out_cur().len()
+        &&& self.buf.out_fut().len() == self.buf.out_cur().len()
+        &&& (%s)
     }
-'''
+''' % (dec_ok_expr(cbc, variant, 'dec', 'self.iv@', 'self.buf.in_val()', 'self.buf.out_fut()', 'BS::USIZE as nat') if dec_call else 'true')
     items = [
         Sel('struct ' + obj),
         Sel('impl InnerUser for ' + obj),
@@ -554,8 +674,8 @@ def variant_mod(fname, obj, cbc, variant, enc_call=None, dec_call=None):
 
 def unit():
     return Unit('cts', prelude=K.PRELUDE_BLOCK, spec=['steps.rs', 'cts.rs'], mods=[lib_mod(),
-                      variant_mod('cbc_cs1', 'CbcCs1', True, 1, enc_call=cbc_enc_call(1)),
-                      variant_mod('cbc_cs2', 'CbcCs2', True, 2, enc_call=cbc_enc_call(2)),
+                      variant_mod('cbc_cs1', 'CbcCs1', True, 1, enc_call=cbc_enc_call(1), dec_call=cbc12_dec_call(1)),
+                      variant_mod('cbc_cs2', 'CbcCs2', True, 2, enc_call=cbc_enc_call(2), dec_call=cbc12_dec_call(2)),
                       variant_mod('cbc_cs3', 'CbcCs3', True, 3, enc_call=cbc_enc_call(3)),
                       variant_mod('ecb_cs1', 'EcbCs1', False, 1, enc_call=ecb_enc_call(1)),
                       variant_mod('ecb_cs2', 'EcbCs2', False, 2, enc_call=ecb_enc_call(2)),
